@@ -397,13 +397,30 @@ def run(rep, facts):
     rep.floor("R10.5", "consume_output sites", counters["consumes"], 3)
 
 
+def run_padding(rep, facts):
+    """R10.6: "padding below 8, content plus padding a multiple of 8": every output record is started through RecordHeader::set_lengths (R10.3);
+    its padding rule is decided for every content length by C17 R17.6, re-evaluated here."""
+    import check as _check
+    from . import c17
+    rep.rule("R10.6", "the padding of every stream record comes from set_lengths, which yields 0 for an aligned content length and 8 - (content % 8) otherwise, "
+                      "for every u16 content length (R17.6)")
+    sr = _check.Report("tmp", "quick")
+    c17.r17_6_set_lengths(sr, facts)
+    n = 0
+    for i in sr.instances:
+        n += 1
+        (rep.ok if i["status"] == "ok" else rep.violation)("R10.6", i["instance"], i["detail"], i["loc"])
+    rep.floor("R10.6", "set_lengths instances", n, 1)
+
+
 def main(rep, tier):
     import check
     f = F.load(("async", "http"))
     rep.configs.append({"features": "async,http", "profile": "debug", "bodies": len(f.bodies)})
     check.guard(rep, "R10", run, f)
+    check.guard(rep, "R10.6", run_padding, f)
     return rep.finish(
         "Who-may-write / typestate rules: all transport writes happen under the shared mutex guard (or with exclusive ownership), the guard "
         "is released only at record boundaries, record-start field writes happen only when a new lock is taken, the iov triple is in "
         "header-payload-padding order and the reported count is the truncated slice; reply bytes are consumed only when confirmed written.",
-        not_decided="the distribution arithmetic of a partial vectored write over the three slices (iov_written closure) and exact padding values (C17 covers set_lengths)")
+        not_decided="the distribution arithmetic of a partial vectored write over the three slices (iov_written closure) (the padding values themselves: R10.6 = R17.6)")
